@@ -514,6 +514,34 @@ func (g *Global) stmtAt(pos token.Pos) string {
 	return strings.Join(strings.Fields(sb.String()), " ")
 }
 
+// opAssignAt returns the text of the `x op= y` statement whose operator token sits at pos ("" if there is none).
+func (g *Global) opAssignAt(pos token.Pos) string {
+	if !pos.IsValid() {
+		return ""
+	}
+	p := g.fset.Position(pos)
+	f := g.files[p.Filename]
+	if f == nil {
+		return ""
+	}
+	var best *ast.AssignStmt
+	ast.Inspect(f, func(n ast.Node) bool {
+		if n == nil || n.Pos() > pos || n.End() < pos {
+			return n != nil && !(n.Pos() > pos || n.End() < pos)
+		}
+		if as, ok := n.(*ast.AssignStmt); ok && (as.TokPos == pos || as.Pos() == pos) && as.Tok != token.ASSIGN && as.Tok != token.DEFINE {
+			best = as
+		}
+		return true
+	})
+	if best == nil {
+		return ""
+	}
+	var sb strings.Builder
+	printer.Fprint(&sb, g.fset, best)
+	return strings.Join(strings.Fields(sb.String()), " ")
+}
+
 // exprAt finds the smallest expression/statement of the expected kind whose relevant token sits at pos.
 func (g *Global) exprAt(pos token.Pos, in ssa.Instruction) string {
 	p := g.fset.Position(pos)
